@@ -3,7 +3,7 @@ NOTES = ("All checks: python3 vt.py <id> --tier quick|thorough. Exploration runs
          "small C++ models next to the harness. Defects found so far were repaired by 'fix:' commits in /repo and are listed "
          "in known_findings.txt as fixed: entries. See DESIGN.md.")
 ENGINES = [
-    {"name": "vt-engine", "path": "/verif/engine", "serves_properties": ["C01", "C02", "C03", "C04", "C05", "C08", "C09", "C10", "C13"],
+    {"name": "vt-engine", "path": "/verif/engine", "serves_properties": ["C01", "C02", "C03", "C04", "C05", "C06", "C08", "C09", "C10", "C13", "C14", "C16"],
      "kind_free_text": "explicit-state BFS to a fixpoint over quiescent states of generated machines, executed on the real library (fresh instance + history replay per edge), with deviation-bounded enumeration of every callback decision inside a step; monitors and a reference semantics evaluated on every edge"},
     {"name": "vt-component", "path": "/verif/harness", "serves_properties": ["C07", "C18", "C19", "C20"],
      "kind_free_text": "explicit-state BFS / bounded-exhaustive enumeration over the concrete state of real library components, compared edge by edge with std containers or independent reference code"},
@@ -63,3 +63,14 @@ chk("C10", "model_checking",
     "Over the complete reachable state graph: every base edge re-executed in storage pre-filled with 0x00/0xFF/0xA5 at fresh addresses (scripted and built-in generator, two compilers) must give identical traces and keys; ordered pairs of histories interleaved on two instances; at every state a copy must continue like the original, not alias it, and leave it unaffected.",
     ENGINE_NOTE + " Memory pre-fill patterns are three representatives, not all byte values.",
     "explicit-state model checking with differential (fill / interleaving / copy) oracles", "DESIGN.md 4 C10")
+
+chk("C06", "model_checking",
+    "From every plan-free reachable state every plan scenario (single tasks, ordered pairs, across nested/orthogonal owners, void and payload) is attached through the real Plan API and stepped with update()/react() under every choice vector with <= 2 callback decisions (succeed/fail in any phase of any active state, swallowed or re-requesting plan result handlers); safety (justified, in-order, once, removed, marks cleared) is strict, liveness is demanded in the unambiguous class the statement defines.",
+    ENGINE_NOTE + " Plan contents are bounded by the scenario alphabet; library-issued requests are identified through the attached logger.",
+    "explicit-state model checking over plan scenarios with a reference plan model on every step", "DESIGN.md 4 C06")
+chk("C14", "model_checking",
+    "Three payload types x programs: every request and plan task of the exhaustive exploration carries a unique tag; in-callback monitors (guards, enter/exit, update/react) and post-step checks read every exposed transition and require the tag to belong to the request with that origin, kind and destination, nullptr for payload-less requests, and correct alignment.",
+    ENGINE_NOTE, "explicit-state model checking with tagged-payload provenance oracle", "DESIGN.md 4 C14")
+chk("C16", "model_checking",
+    "The exhaustive exploration runs with a recording logger (interface and verbose mode): on every edge the logger record is merged with the callbacks' own trace (one report per invoked callback / request / cancel / status / resolution, nothing extra), every base edge is re-run without logger and must be identical, structure()/activityHistory() are compared with isActive() after every step and the saturating recurrence over a 300-step tail.",
+    ENGINE_NOTE, "explicit-state model checking, logger-vs-trace merge oracle", "DESIGN.md 4 C16")
